@@ -3,7 +3,7 @@ from hypothesis import strategies as st
 
 from gen.fa import POOL, names, finals
 
-STACK = ["$", "X", "a", "@", "0", "#", "Z"]
+STACK = ["$", "X", "a", "@", "0", "#", "Z", "%", "~", "!", "^", "&", "*"]
 EPS = ["", "ε", "_", "e"]
 
 
